@@ -575,6 +575,11 @@ func TestC20_EventPipeline(t *testing.T) {
 				switch kind {
 				case "burn":
 					x.Addr = c20eth(rapid.IntRange(0, 2).Draw(t, "eth"))
+					if rapid.IntRange(0, 3).Draw(t, "checksumSpelling") == 2 {
+						// the same address in its mixed-case (checksummed) spelling: the chain numbers burns per literal
+						// address string, so this spelling has its own nonce sequence and its own tickets
+						x.Addr = "0x" + strings.ToUpper(x.Addr[2:12]) + x.Addr[12:]
+					}
 					if avoid[c20kTicketsSameAddr] && addrUsed[x.Addr] > 0 {
 						for k := 0; k < 3 && addrUsed[x.Addr] > 0; k++ {
 							x.Addr = c20eth(k)
